@@ -133,3 +133,88 @@ Definition lsn_model_run (h : list lstep) : lacc :=
 (* at most one unexplained drop per history *)
 Definition C06_lsn_agree (h : list lstep) : bool :=
   let a := lsn_model_run h in la_ok a && Nat.leb (la_drops a) 1.
+
+(* ---- kind lsn.slowlink: the listeners behind a rate-limited loopback ----
+   Besides the datagrams, two more observations: the harness's own clock
+   reading after it read each reply (sw_crecv, same clock as the kernel stamps)
+   and whether the listener itself reported that it could not read the
+   transmit timestamp of that exchange (sw_unread).  The property: an
+   interleaved reply serves "the transmit time recorded for the earlier reply
+   ..., the kernel transmit timestamp once it has been read, and an exchange
+   for which none could be read is dropped from the record rather than served".
+   With monotone time, the kernel transmit timestamp of a reply
+   - is not earlier than the software transmit time that this very reply carries
+     in its transmit field when it is a basic reply (the listener reads its clock,
+     fills the packet, then hands it to the kernel), and
+   - is not later than the moment the client has the reply in its hands. *)
+Record sobs := { sw_obs : lobs; sw_crecv : Z; sw_unread : bool }.
+
+(* margin for reading the clock: 1 ms in Time64 units *)
+Definition slow_margin : Z := 4294968.
+
+(* the most recent earlier reply to this client that carried this receive stamp (older: newest first) *)
+Definition slow_find (cl rx : Z) (older : list sobs) : option sobs :=
+  find (fun p => (l_cl (sw_obs p) =? cl) && (l_rx (sw_obs p) =? rx)) older.
+
+Definition slow_step_ok (older : list sobs) (o : sobs) : bool :=
+  lsn_step_ok (map (fun p => lsn_key (sw_obs p)) older) (sw_obs o) &&
+  (if lsn_inter (sw_obs o) then
+     match slow_find (l_cl (sw_obs o)) (q_org (l_q (sw_obs o))) older with
+     | Some j =>
+         negb (sw_unread j) &&                                               (* dropped, not served *)
+         (if lsn_inter (sw_obs j) then true else l_tx (sw_obs j) <=? l_tx (sw_obs o)) &&   (* not before the software transmit time *)
+         (l_tx (sw_obs o) <=? sw_crecv j + slow_margin)                       (* not after the client had the reply *)
+     | None => false
+     end
+   else true).
+
+Fixpoint slow_ok_rev (h : list sobs) : bool :=
+  match h with
+  | [] => true
+  | o :: older => slow_step_ok older o && slow_ok_rev older
+  end.
+
+(* h: oldest first *)
+Definition C06_slow_ok (h : list sobs) : bool := slow_ok_rev (rev h).
+
+(* relational part: replay on the model in the order the listener goroutine handled the requests
+   (one client socket per history).  An exchange whose transmit stamp the listener could not read
+   is dropped in the model too; bursts are in flight together, so only the order of the stamps of
+   one exchange and the bracket of a served stamp are compared. *)
+Record sstepr := { ss_obs : sobs; ss_ref : Z }.
+
+Record sacc := { sa_state : option tss; sa_ok : bool; sa_drops : nat }.
+
+Definition slow_model_step (a : sacc) (st : sstepr) : sacc :=
+  let o := sw_obs (ss_obs st) in
+  let rxt := ns_of_64 (l_rx o) in let now := ns_of_64 (ss_ref st) in
+  let times_ok := (to64 rxt =? l_rx o) && (to64 now =? ss_ref st) && (l_rx o <? ss_ref st) in
+  let bad := {| sa_state := None; sa_ok := false; sa_drops := sa_drops a |} in
+  let finish (s' : tss) (ok : bool) (drops : nat) :=
+    (* the listener's report for this exchange *)
+    let s2 := if sw_unread (ss_obs st) then t_state (update_tx s' (l_cl o) rxt now) else s' in
+    {| sa_state := Some s2; sa_ok := sa_ok a && ok; sa_drops := drops |} in
+  match sa_state a with
+  | None => bad
+  | Some s =>
+      match handle real_config s (l_cl o) (l_q o) rxt now 0 with
+      | None => bad
+      | Some out =>
+          let r := o_reply out in
+          let common := times_ok && (r_rx r =? l_rx o) && (r_ref r =? ss_ref st) in
+          if r_inter r then
+            if lsn_inter o then
+              finish (o_state out) (common && (r_org r =? l_org o) && (r_tx r <=? l_tx o) && (l_tx o <=? l_rx o)) (sa_drops a)
+            else
+              let s1 := t_state (update_tx s (l_cl o) (ns_of_64 (q_org (l_q o))) (ns_of_64 (r_tx r))) in
+              match handle real_config s1 (l_cl o) (l_q o) rxt now 0 with
+              | Some out1 => finish (o_state out1) (common && negb (r_inter (o_reply out1)) && basic_shape o (ss_ref st)) (S (sa_drops a))
+              | None => bad
+              end
+          else finish (o_state out) (common && negb (lsn_inter o) && basic_shape o (ss_ref st)) (sa_drops a)
+      end
+  end.
+
+Definition C06_slow_agree (h : list sstepr) : bool :=
+  let a := fold_left slow_model_step h {| sa_state := Some tss_empty; sa_ok := true; sa_drops := O |} in
+  sa_ok a && Nat.leb (sa_drops a) 1.
